@@ -52,6 +52,10 @@ def run(ctx):
     from . import c03
     c03.r313(ctx, ctx.repo['core'], 'R13.6')
     from . import callsigs as _cs
+    from . import findings3 as _f3
+    _f3.drill_conditions(ctx, 'R13.11')
+    from . import c08 as _c08b
+    _c08b.r83(ctx, ctx.repo['writer'], ctx.repo['api'], ctx.repo['util'], ctx.repo['core'])    # the pattern that finds the pairs to prune on
     _cs.general_rules(ctx, 'R13', ['api.ParquetFile.to_pandas', 'api.ParquetFile.count', 'api.ParquetFile.read_row_group_file', 'api.ParquetFile.iter_row_groups', 'core.read_row_group', 'core.read_row_group_arrays', 'core.read_col', 'api.ParquetFile._column_filter', 'api.filter_row_groups'])
 
 
